@@ -191,6 +191,7 @@ SCEN_RE = re.compile(r"Scenario: (.*?)(?: \| Retry attempt: (\d+)/(\d+))?$")
 
 def parse_lines(text, T, listing=False):
     rfs = []
+    cur_fid = 0
     for line in text.split("\n"):
         m = HOOK_RE.search(line)
         if m:
@@ -208,13 +209,18 @@ def parse_lines(text, T, listing=False):
         m = re.search(r"(?:^|log\d+)Feature: (.*)$", line)
         if m and not listing:
             fid = idnum(m.group(1), "F")
+            cur_fid = fid
             T.check(fid in T.f and T.f[fid]["name"] == m.group(1))
             rfs.append("(RLFeature %s)" % cN(fid))
             continue
         m = re.search(r"^(?:log\d+)*\s*Rule: (.*)$", line)
         if m and not listing:
             rid = idnum(m.group(1), "R")
-            T.check(rid in T.r and T.r[rid][1]["name"] == m.group(1))
+            if m.group(1).strip() == "" and cur_fid in T.f:
+                # a `Rule:` without a name carries no id: it is the (only) unnamed rule of the feature being listed
+                unnamed = [r["id"] for r in T.f[cur_fid]["rules"] if r["name"] == ""]
+                rid = unnamed[0] if len(unnamed) == 1 else 0
+            T.check(rid in T.r and T.r[rid][1]["name"] == m.group(1).strip())
             rfs.append("(RLRule %s)" % cN(rid))
             continue
         m = re.search(r"^(?:log\d+)*\s*" + SCEN_RE.pattern, line)
